@@ -2,6 +2,7 @@
 From Coq Require Import List NArith Bool Lia.
 Import ListNotations.
 From Snaps Require Import Base.Bytes Base.Lines Model.Json Model.JsonSpec Proofs.JsonP Proofs.MaskP.
+From Snaps Require Import Model.Matchers Proofs.MatchersP.
 
 (* two inputs that differ only at a masked path (v2 is v with another value y there) become
    the same document once the matcher has put its placeholder x there *)
@@ -23,3 +24,39 @@ Theorem C16_store_injective : forall (width : nat) (indent : bytes) (sk : bool) 
   parse fuel (snapshot_json width indent sk s) = Some (sort_if sk v).
 Proof. exact snapshot_lossless. Qed.
 Print Assumptions C16_store_injective.
+
+(* ---------- whole matcher lists (Model/Matchers.v) ---------- *)
+
+(* MASKING: two documents that agree except at paths covered by the matchers (the second is obtained from the first by setting,
+   at existing covered paths, values of the same class - any value for Any/Custom, a value of the same JSON type for Type) give
+   the same result under matchers with pairwise disjoint simple paths that do not fail: same masked document, ... *)
+Theorem C16_masked_list : forall ms v1 v2,
+  pairwise_disj (all_paths ms) = true -> masked_variant (covered_by ms) v1 v2 ->
+  snd (apply_matchers ms v1) = [] -> apply_matchers ms v2 = apply_matchers ms v1.
+Proof. exact MatchersP.C16_masked_list. Qed.
+(* ... hence the same stored text: each input passes against the snapshot of the other *)
+Theorem C16_masked_text : forall ms d1 d2 v1 v2,
+  parse (S (length d1)) d1 = Some v1 -> parse (S (length d2)) d2 = Some v2 ->
+  pairwise_disj (all_paths ms) = true -> masked_variant (covered_by ms) v1 v2 ->
+  snd (apply_matchers ms v1) = [] -> apply_matchers_text ms d2 = apply_matchers_text ms d1.
+Proof. exact C16_masked_text_default. Qed.
+(* UNMASKED fields always influence the result: a difference at a path disjoint from every matcher path survives *)
+Theorem C16_unmasked_list : forall ms v1 v2 q,
+  (forall p, In p (all_paths ms) -> pdisj p q = true) -> get v1 q <> get v2 q ->
+  get (fst (apply_matchers ms v1)) q <> get (fst (apply_matchers ms v2)) q /\
+  fst (apply_matchers ms v1) <> fst (apply_matchers ms v2).
+Proof. exact MatchersP.C16_unmasked_list. Qed.
+(* masking twice is masking once (Any / Custom / Type[string]) *)
+Theorem C16_masking_idempotent : forall ms v,
+  pairwise_disj (all_paths ms) = true -> Forall stable_matcher ms -> snd (apply_matchers ms v) = [] ->
+  apply_matchers ms (fst (apply_matchers ms v)) = apply_matchers ms v.
+Proof. exact matchers_idempotent. Qed.
+Print Assumptions C16_masked_list.
+Print Assumptions C16_masked_text.
+Print Assumptions C16_unmasked_list.
+Print Assumptions C16_masking_idempotent.
+
+(* non-vacuity: a concrete document and matcher list (Any, Type, Custom) with a masked variant meeting the hypotheses *)
+Example C16_masked_example : exists v2,
+  parse (S (length exdoc2)) exdoc2 = Some v2 /\ masked_variant (covered_by ex_ms) exv v2.
+Proof. exact ex_masked_variant. Qed.
